@@ -91,6 +91,10 @@ inline std::string proj(SoPlex& s)
    o.raw("rtype", jarr(nr, [&](int i) { return std::to_string((int)s.rowTypeReal(i)); }));
    o.q("epsParam", s.realParam(SoPlex::EPSILON_ZERO)).q("tolEps", (double)s.tolerances()->epsilon());
    o.q("feastolParam", s.realParam(SoPlex::FEASTOL)).q("tolFeas", (double)s.tolerances()->floatingPointFeastol());
+   { J cfg; cfg.i("SCALER", s.intParam(SoPlex::SCALER)).i("SIMPLIFIER", s.intParam(SoPlex::SIMPLIFIER)).i("ALGORITHM", s.intParam(SoPlex::ALGORITHM))
+        .i("REPRESENTATION", s.intParam(SoPlex::REPRESENTATION)).i("PRICER", s.intParam(SoPlex::PRICER)).i("RATIOTESTER", s.intParam(SoPlex::RATIOTESTER))
+        .i("STARTER", s.intParam(SoPlex::STARTER)).i("SOLUTION_POLISHING", s.intParam(SoPlex::SOLUTION_POLISHING)).i("FACTOR_UPDATE_TYPE", s.intParam(SoPlex::FACTOR_UPDATE_TYPE))
+        .b("PERSISTENTSCALING", s.boolParam(SoPlex::PERSISTENTSCALING)); o.raw("cfg", cfg.str()); }
    o.i("status", (int)s.status()).b("hasSol", s.hasSol()).b("hasBasis", s.hasBasis());
    if(s.hasBasis())
    {
